@@ -189,24 +189,25 @@ PROPS = {
     'C05': dict(
         monitor_clauses=r'_rt_c05',
         monitor_quick=[RF + c + '.rfa' for c in ('ExpFixedRFA', 'LinearAdaptiveRFA', 'ExpAdaptiveRFA', 'CubicSplineRFA', 'LinearFixedRFA')],
-        functions=[RF + 'LinearFixedRFA.rfa', RF + 'PiecewiseConstantRFA.rfa', 'lemma:rfa.linear_fixed.bounds', 'lemma:rfa.linear_fixed.monotone',
-                   RF + 'LinearAdaptiveRFA.get_adaptive_transition_points']
+        functions=[RF + 'LinearFixedRFA.rfa', RF + 'ExpFixedRFA.rfa', RF + 'PiecewiseConstantRFA.rfa', 'lemma:rfa.linear_fixed.bounds',
+                   'lemma:rfa.linear_fixed.monotone', 'lemma:rfa.exp_fixed.bounds', RF + 'LinearAdaptiveRFA.get_adaptive_transition_points']
         + [RF + c + '.__init__' for c in ('LinearFixedRFA', 'ExpFixedRFA', 'LinearAdaptiveRFA', 'ExpAdaptiveRFA')],
         level='proof',
-        explanation=("PROVED for LinearFixedRFA and PiecewiseConstantRFA, all series / spacings / n / windows: the code computes the "
-                     "closed form fv (postcondition linf_values, loop invariants over the extended grid); lemmas over fv: plateau at the "
-                     "average on samples a_l..n-a_r (at most a-1 samples differ), every transition sample between the interval's average "
-                     "and the neighbour's on its side, monotone steps towards the plateau; window fields of all four constructors; "
-                     "adaptive window sizes within 0..a. BOUNDED (run-time monitoring, not proof) for ExpFixedRFA, LinearAdaptiveRFA, "
-                     "ExpAdaptiveRFA and the spline strategy: generated objects with ties, non-uniform spacing, explicit windows."),
-        assumptions=[A_REAL, A_LEN, "values of ExpFixedRFA / LinearAdaptiveRFA / ExpAdaptiveRFA / CubicSplineRFA: bounded run-time monitoring only",
+        explanation=("PROVED for LinearFixedRFA, ExpFixedRFA and PiecewiseConstantRFA, all series / spacings / n / windows / linear share / "
+                     "exponent > 0: the code computes the closed forms fv / fe (postconditions linf_values, expf_values; loop invariants "
+                     "over the extended grid); lemmas over the closed forms: plateau at the average (at most a-1 samples differ), every "
+                     "transition sample between the interval's average and the neighbour's on its side (power blends via the power "
+                     "axioms), LinearFixed: monotone steps towards the plateau; window fields of all four constructors; adaptive window "
+                     "sizes within 0..a. BOUNDED (run-time monitoring, not proof): monotonicity of the ExpFixed blends (known finding "
+                     "for exponents < 0.133), LinearAdaptiveRFA, ExpAdaptiveRFA and the spline strategy."),
+        assumptions=[A_REAL, A_LEN, "power axioms P1-P8 for POW(r, a)", "values of LinearAdaptiveRFA / ExpAdaptiveRFA / CubicSplineRFA and monotonicity of ExpFixedRFA: bounded run-time monitoring only",
                      "SciPy CubicSpline: assumed interpolating (trusted dependency)"],
     ),
     'C06': dict(
         monitor_clauses=r'_rt_c06',
         monitor_quick=[RF + c + '.rfa' for c in ('ExpFixedRFA', 'LinearAdaptiveRFA', 'ExpAdaptiveRFA', 'LinearFixedRFA')],
         functions=[M + 'funfit.' + f for f in ('lin_fit', 'exp_fit', 'exp_xy_fit', 'exp_lin_fit', 'lin_exp_xy_fit')]
-        + [RF + 'LinearFixedRFA.rfa', RF + 'LinearAdaptiveRFA.get_adaptive_transition_points']
+        + [RF + 'LinearFixedRFA.rfa', RF + 'ExpFixedRFA.rfa', 'lemma:rfa.exp_fixed.bounds', RF + 'LinearAdaptiveRFA.get_adaptive_transition_points']
         + [RF + c + '.__init__' for c in ('LinearFixedRFA', 'ExpFixedRFA', 'LinearAdaptiveRFA', 'ExpAdaptiveRFA')],
         level='proof',
         explanation=("PROVED: the five shape functions equal their closed forms for every exponent and hit both end points; "
@@ -214,20 +215,23 @@ PROPS = {
                      "border, transition samples on the straight line between border value and plateau (closed form fv for symbolic m, "
                      "n, window); adaptive windows: the four cases of the split (both / one / no neighbour differing), trunc-clip "
                      "formula with gamma = (right jump / left jump)^smooth, and for smooth = 1 the side with the larger jump never "
-                     "gets the larger window. BOUNDED: border values and shapes of ExpFixedRFA and the application of the windows in "
-                     "the adaptive strategies (run-time monitoring)."),
-        assumptions=[A_REAL, A_LEN, "power axioms P1-P8 for POW(r, a)", "ExpFixedRFA / adaptive strategies' values: bounded run-time monitoring only"],
+                     "gets the larger window; ExpFixedRFA: the code computes the closed form fe (linear piece, linear/power blend with the "
+                     "given exponent, plateau, power/linear blend, linear piece), whose first sample is the border value. BOUNDED: the "
+                     "application of the windows in the adaptive strategies (run-time monitoring)."),
+        assumptions=[A_REAL, A_LEN, "power axioms P1-P8 for POW(r, a)", "adaptive strategies' values: bounded run-time monitoring only"],
     ),
     'C07': dict(
         monitor_clauses=r'_rt_c07',
         monitor_quick=[RF + c + '.rfa' for c in ('PiecewiseConstantRFA', 'LinearFixedRFA', 'ExpFixedRFA', 'LinearAdaptiveRFA', 'ExpAdaptiveRFA', 'CubicSplineRFA')],
         functions=[RF + 'LinearFixedRFA.rfa', RF + 'PiecewiseConstantRFA.rfa', 'lemma:rfa.linear_fixed.equivariance_y', 'lemma:rfa.linear_fixed.equivariance_x',
-                   'lemma:rfa.linear_fixed.locality'],
+                   'lemma:rfa.linear_fixed.locality', RF + 'ExpFixedRFA.rfa', 'lemma:rfa.exp_fixed.locality',
+                   RF + 'LinearAdaptiveRFA.get_adaptive_transition_points'],
         level='proof',
         explanation=("PROVED for LinearFixedRFA (relational lemmas over the closed form the code is proved to compute, two strategy "
                      "objects on related data): y -> al*y + be and x -> c*x + d (c > 0) commute with recreation for all real al, be, c, d "
                      "(hence an affine map of the averages with weights summing to one); a value of an interval reads only that "
-                     "interval's and the two adjacent averages. PiecewiseConstantRFA: values are the averages themselves. BOUNDED "
+                     "interval's and the two adjacent averages; ExpFixedRFA: locality (same statement over its closed form); adaptive windows are "
+                     "computed from absolute jumps with exact zero tests only. PiecewiseConstantRFA: values are the averages themselves. BOUNDED "
                      "(run-time metamorphic monitoring with exactly representable maps, one-average perturbations) for the other "
                      "strategies."),
         assumptions=[A_REAL, A_LEN, "non-negativity of the weights is the C05 bounds lemma; other strategies: bounded run-time monitoring only"],
